@@ -100,11 +100,12 @@ def _gen_uncopyable():
             prog = {'steps': [S(['cont', ['@NOCOPY', 1], {'k': '@NOCOPY'}], sync=sync, yields=0 if sync else 1), S(['cont', ['@NOCOPY'], {}], sync=True), S(term, sync=sync, yields=0 if sync else 1)]}
             yield {'program': prog, 'resumes': [], 'crash': [], 'ci': -1, 'uncopyable': True}
             prog = {'steps': [S(['wait', 'm', None], sync=sync, yields=0 if sync else 1), S(term, sync=True)]}
-            for mode in (None, 'pause-resume', 'resume-pause'):
-                case = {'program': prog, 'resumes': [[True, '@NOCOPY']], 'crash': [], 'ci': -1, 'uncopyable': True}
-                if mode:
-                    case['resume_mode'] = mode
-                yield case
+            for value in ('@NOCOPY', '@FUTURE'):  # ('@FUTURE': a pending loop future as the wake-up value -- a value, not something to wait for)
+                for mode in (None, 'pause-resume', 'resume-pause'):
+                    case = {'program': prog, 'resumes': [[True, value]], 'crash': [], 'ci': -1, 'uncopyable': True}
+                    if mode:
+                        case['resume_mode'] = mode
+                    yield case
 
 
 def run_case(case):
